@@ -184,7 +184,7 @@ pub fn explore_pairs(w: &World, member: &str, regime: Regime, max_pairs: usize, 
 pub fn snap(c: &Client, w: &World, pool_ids: &[nostr::EventId], wids: &[nostr::EventId]) -> StateRec {
     let key = c.key(pool_ids, wids).to_string();
     let g = c.group_obs(&w.gid);
-    StateRec { key_hash: h64(&key), obs_hash: 0, g, dedup: vec![], snap_queue: vec![], snap_stored: vec![], depth: 0, parent: None, key_json: None, auto_pending: false, send_ok: None, foreign_msgs: 0, welcome_states: vec![], welcome_dedup: vec![] }
+    StateRec { key_hash: h64(&key), obs_hash: 0, g, dedup: vec![], snap_queue: vec![], snap_stored: vec![], depth: 0, parent: None, key_json: None, auto_pending: false, send_ok: None, foreign_msgs: 0, welcome_states: vec![], welcome_dedup: vec![], routes: vec![] }
 }
 
 /// Restart positions on one unforked client. The pair search above forks both replicas between any two steps
